@@ -591,7 +591,7 @@ def run_est(initialize, dt_min, word, reuse_msgs=False, t0=0.01, keep_ref=True):
 def explore_est(case):
     tier, initialize, dt_min, first = case["tier"], case["initialize"], tuple(case["dt_min"]), case["first"]
     reuse = bool(case.get("reuse_msgs"))
-    depth = 5 if tier == "thorough" else 4
+    depth = case.get("depth") or (5 if tier == "thorough" else 4)
     res = core.Result()
     evs = [(s, d) for s in ("imu", "mag") for d in DTS]
     for d in range(1, depth + 1):
@@ -986,8 +986,10 @@ class _Est:
         # the same words with one message object per topic reused by the publisher
         out += [dict(sub="est", tier=tier, initialize=i, dt_min=(5e-3, 20e-3), first=f, reuse_msgs=True) for i in (True, False) for f in range(16)]
         # time stamps far from zero (a log replayed with its absolute stamps, a long mission), and a node the caller does not keep a reference to
-        out += [dict(sub="est", tier=tier, initialize=i, dt_min=(5e-3, 20e-3), first=f, t0=t0_) for i in (True, False) for f in range(16) for t0_ in (4096.0, 1.0e6)]
-        out += [dict(sub="est", tier=tier, initialize=False, dt_min=(5e-3, 20e-3), first=f, keep_ref=False) for f in range(16)]
+        # (one level shallower than the main words: the limiter logic is the same, the stamps / the ownership differ)
+        dv = 4 if tier == "thorough" else 3
+        out += [dict(sub="est", tier=tier, initialize=i, dt_min=(5e-3, 20e-3), first=f, t0=t0_, depth=dv) for i in (True, False) for f in range(16) for t0_ in (4096.0, 1.0e6)]
+        out += [dict(sub="est", tier=tier, initialize=False, dt_min=(5e-3, 20e-3), first=f, keep_ref=False, depth=dv) for f in range(16)]
         return out
 
     def run(self, case):
